@@ -24,8 +24,8 @@ ASSUMPTIONS = [
     "the theorems are about the hand-written models (Model/Parser.v, Receiver.v, ChanSeq.v); K-chanseq and the reference search are sampled, not exhaustive",
 ]
 
-N_STREAMS = {"quick": 300, "thorough": 6000}
-N_CORR = {"quick": 120, "thorough": 1500}
+N_STREAMS = {"quick": 1500, "thorough": 20000}
+N_CORR = {"quick": 300, "thorough": 3000}
 ATOMS = {"quick": 2, "thorough": 3}
 
 
